@@ -284,12 +284,14 @@ def _list_optimal(kinds, vals1, vals2, goal2_min, single, nan0, args):
   if nan0 and known(KF_NAN):
     return True
   with NoTracing():
+   ok_all = True
+   for close in (False, True):       # second pass: objective values that are distinct doubles but collide in float32
     sv = svc.new_servicer()
     spec = _service_study(goal2_min, single).to_proto()
     sv.datastore.create_study(study_pb2.Study(name=svc.S, display_name='s', study_spec=spec, state=1))
     for i in range(n):
-      v1 = float('nan') if (nan0 and i == 0) else r1[i] * 1.5 - 2.0
-      v2 = r2[i] * 1.5 - 2.0
+      v1 = float('nan') if (nan0 and i == 0) else ((0.25 + r1[i] * 1e-9) if close else r1[i] * 1.5 - 2.0)
+      v2 = (100000001.0 + r2[i]) if close else r2[i] * 1.5 - 2.0
       state = {0: svc.SUCCEEDED, 1: svc.SUCCEEDED, 2: svc.INFEASIBLE, 3: svc.ACTIVE}[kinds[i]]
       t = study_pb2.Trial(name=svc.trial_name(i + 1), id=str(i + 1), state=state)
       t.parameters.add(parameter_id='x').value.number_value = 0.5
@@ -303,8 +305,9 @@ def _list_optimal(kinds, vals1, vals2, goal2_min, single, nan0, args):
       sv.datastore.create_trial(t)
     resp = sv.ListOptimalTrials(vs.ListOptimalTrialsRequest(parent=svc.S))
     got = sorted(int(t.id) for t in resp.optimal_trials)
+    ok_all = ok_all and got == want
   reach('listoptimal')
-  return finish(got == want, args, obs=[got, want])
+  return finish(ok_all, args, obs=[got, want])
 
 
 def list_optimal_2metrics(k0: int, k1: int, goal2_min: bool, x0: int, y0: int, x1: int, y1: int, x2: int, y2: int) -> bool:
@@ -394,3 +397,40 @@ def _best_trials(kinds, vals1, vals2, goal2_min, single, args):
     got = sorted(t.id for t in sup.GetBestTrials())
   reach('besttrials_single' if single else 'besttrials_multi')
   return finish(got == want, args, obs=[got, want])
+
+
+def best_trials_safety(sa: int, sb: int, order: bool, x0: int, x1: int, x2: int) -> bool:
+  """
+  pre: True
+  post: _
+  """
+  from vizier import pyvizier as vz
+  from vizier._src.pythia import local_policy_supporters as lps
+  # trial 0 reports two safety metrics: s1 (safe iff >= 0) and s2 (safe iff <= 0); trials 1, 2 are safe
+  safe0 = (sa >= 0) and (sb <= 0)
+  cand = [0, 1, 2] if safe0 else [1, 2]
+  vals = [x0, x1, x2]
+  opt = _oracle_optimal([[vals[i] for i in cand]])
+  want = sorted(cand[k] + 1 for k in range(len(cand)) if opt[k])
+  r = _ranks(vals)
+  ca, cb = _cmp(sa, 0), _cmp(sb, 0)
+  order = True if order else False
+  with NoTracing():
+    problem = vz.ProblemStatement()
+    problem.search_space.root.add_float_param('x', 0.0, 1.0)
+    problem.metric_information.append(vz.MetricInformation('m1', goal=vz.ObjectiveMetricGoal.MAXIMIZE))
+    safeties = [vz.MetricInformation('s1', goal=vz.ObjectiveMetricGoal.MAXIMIZE, safety_threshold=0.0),
+                vz.MetricInformation('s2', goal=vz.ObjectiveMetricGoal.MINIMIZE, safety_threshold=0.0)]
+    for mi in (reversed(safeties) if order else safeties):     # the order in which the safety metrics are configured
+      problem.metric_information.append(mi)
+    sup = lps.InRamPolicySupporter(problem)
+    trials = []
+    for i in range(3):
+      t = vz.Trial(parameters={'x': 0.5})
+      m = {'m1': r[i] * 1.5 - 2.0, 's1': float(ca) if i == 0 else 1.0, 's2': float(cb) if i == 0 else -1.0}
+      t.complete(vz.Measurement(m))
+      trials.append(t)
+    sup.AddTrials(trials)
+    got = sorted(t.id for t in sup.GetBestTrials())
+  reach('besttrials_safety')
+  return finish(got == want, (sa, sb, order, x0, x1, x2), obs=[got, want])
